@@ -188,6 +188,39 @@ pub fn check_bytes(bytes: &[u8], input: &FstInput, full: bool) -> CheckResult {
             Err(e) => vfail!("stream-mismatch", "into_strs failed on valid UTF-8 keys: {:?}", e),
         }
     }
+    // remaining collectors and conversions of the wrapper layer
+    vensure!(m.stream().into_byte_keys() == keys_of(want), "stream-mismatch", "Map into_byte_keys mismatch for {}", short(want));
+    vensure!(m.stream().into_values() == want.iter().map(|x| x.1).collect::<Vec<_>>(), "stream-mismatch", "Map into_values mismatch for {}", short(want));
+    let mut gotk = vec![];
+    let mut s = (&st).into_stream();
+    while let Some(k) = s.next() {
+        gotk.push(k.to_vec());
+    }
+    vensure!(gotk == keys_of(want), "stream-mismatch", "&Set into_stream mismatch for {}", short(want));
+    {
+        let m2: fst::Map<&[u8]> = fst::Map::from(fst::raw::Fst::new(bytes).unwrap());
+        vensure!(&m2.stream().into_byte_vec() == want && m2.len() == want.len(), "stream-mismatch", "Map::from(Fst) streams something else than the Fst; input {}", short(want));
+        let s2: fst::Set<&[u8]> = fst::Set::from(fst::raw::Fst::new(bytes).unwrap());
+        vensure!(s2.stream().into_bytes() == keys_of(want) && s2.len() == want.len(), "stream-mismatch", "Set::from(Fst) streams something else than the Fst; input {}", short(want));
+        let via: &fst::raw::Fst<&[u8]> = m.as_ref();
+        vensure!(&gen::collect_stream(via.stream()) == want, "stream-mismatch", "Map::as_ref::<Fst>() streams something else; input {}", short(want));
+        let via: &fst::raw::Fst<&[u8]> = st.as_ref();
+        vensure!(&gen::collect_stream(via.stream()) == want, "stream-mismatch", "Set::as_ref::<Fst>() streams something else; input {}", short(want));
+        vensure!(&gen::collect_stream(m.as_fst().stream()) == want && &gen::collect_stream(st.as_fst().stream()) == want, "stream-mismatch", "as_fst() streams something else; input {}", short(want));
+        let back = fst::Map::new(bytes).unwrap().into_fst();
+        vensure!(back.as_bytes() == bytes, "stream-mismatch", "Map::into_fst changes the bytes");
+    }
+    if want.iter().all(|p| std::str::from_utf8(&p.0).is_ok()) {
+        let ws: Vec<(String, u64)> = want.iter().map(|p| (String::from_utf8(p.0.clone()).unwrap(), p.1)).collect();
+        match f.stream().into_str_vec() {
+            Ok(g) => vensure!(g == ws, "stream-mismatch", "raw into_str_vec mismatch for {}", short(want)),
+            Err(e) => vfail!("stream-mismatch", "raw into_str_vec failed on valid UTF-8 keys: {:?}", e),
+        }
+        match f.stream().into_str_keys() {
+            Ok(g) => vensure!(g == ws.iter().map(|x| x.0.clone()).collect::<Vec<_>>(), "stream-mismatch", "raw into_str_keys mismatch for {}", short(want)),
+            Err(e) => vfail!("stream-mismatch", "raw into_str_keys failed on valid UTF-8 keys: {:?}", e),
+        }
+    }
     // stream keeps returning None after exhaustion
     let mut s = f.stream();
     while s.next().is_some() {}
